@@ -537,6 +537,50 @@ def check_difference_vector(rep: Report, ix):
                         if not ok:
                             rep.violation("C12.difference-vector", f"{f.ref}::{argname}", f"{c.name}.difference_vector: {why}", line=node.lineno)
     rep.floor("difference_vector definitions calling _difference_vector", n_sites, 3)
+    # every returning path of an override on a grid class that can have periodic axes reaches _difference_vector with the
+    # class's own periodicity flags; a path that takes the un-wrapped difference (super() / base call with all-False flags)
+    # must have established that *no* axis is periodic (`not any(self.periodic)`) -- `not all(...)` does not imply that
+    from ..cfg_lite import all_paths
+
+    n_paths = 0
+    for g in ix.subclasses(base, strict=True):
+        for f in g.methods.get("difference_vector", []):
+
+            def ev(st):
+                return "return" if isinstance(st, ast.Return) else None
+
+            for path, oc in all_paths(f.node, event=ev):
+                if oc != "return":
+                    continue
+                ret = next((st for k, st in path.events if k == "return"), None)
+                if ret is None or ret.value is None:
+                    continue
+                n_paths += 1
+                v = ret.value
+                wraps = isinstance(v, ast.Call) and dotted(v.func).endswith("._difference_vector") and not dotted(v.func).startswith("super")
+                if wraps:
+                    continue
+
+                def no_periodic(t, pol):
+                    neg = False
+                    while isinstance(t, ast.UnaryOp) and isinstance(t.op, ast.Not):
+                        neg = not neg
+                        t = t.operand
+                    is_any = isinstance(t, ast.Call) and dotted(t.func) in ("any", "np.any") and t.args and "periodic" in ast.unparse(t.args[0])
+                    return is_any and (pol == neg)  # any(periodic) evaluated False
+
+                ok = any(no_periodic(t, pol) for t, pol in path.tests)
+                conds = [("" if pol else "not ") + ast.unparse(t)[:50] for t, pol in path.tests]
+                rep.oblige(f"{f.qualname}: un-wrapped path only without periodic axes", ok, conds)
+                if not ok:
+                    rep.violation(
+                        "C12.difference-vector",
+                        f"{f.ref}::unwrapped-path",
+                        f"`{ast.unparse(v)[:70]}` is returned under {conds or 'no condition'}: this path skips the periodic wrap although the condition does not rule out periodic axes "
+                        "(mixed periodicity): distances across the seam exceed half a period and change under period shifts",
+                        line=ret.lineno,
+                    )
+    rep.floor("returning paths of difference_vector overrides", n_paths, 2)
 
 
 def check_wrap_formula(rep: Report, ix):
@@ -842,6 +886,131 @@ def check_slice_project(rep: Report, ix):
         rep.violation("C12.project-volume", f"{GRIDS['CylindricalSymGrid'][0]}::CylindricalSymGrid.cell_volume_data::radial", f"radial factor {vols['CylindricalSymGrid']} differs from the polar cell volume {vols['PolarSymGrid']}: projecting along z changes the integral")
 
 
+def check_random_point_range(rep: Report, ix):
+    """"points generated inside the grid are reported as contained": the radial (and axial) coordinate of get_random_point is
+    drawn as f(uniform(f^-1(lo), f^-1(hi))) with lo/hi computed from the bounds and boundary_distance >= 0.  Obligations on the
+    extracted terms (sympy, r_inner >= 0, r_outer > 0, boundary_distance >= 0, both values of avoid_center, dim 2 and 3): the
+    draw at u = 0 equals lo and at u = 1 equals hi (the transformation is undone consistently), lo >= lower bound and
+    hi <= upper bound of the axis -- so every point lies between the bounds of the grid (a hole is never entered)."""
+    sites = [("pde/grids/spherical.py", "SphericalSymGridBase.get_random_point", ["r"]), ("pde/grids/cylindrical.py", "CylindricalSymGrid.get_random_point", ["r", "z"])]
+    U = sp.Symbol("u_draw", nonnegative=True)
+    bd = sp.Symbol("boundary_distance", nonnegative=True)
+    n = 0
+    for rel, qn, coords in sites:
+        f = ix.func(rel, qn)
+        rep.saw("functions", f.ref)
+        for avoid in (False, True):
+            for dim in ((2, 3) if "Spherical" in qn else (3,)):
+                lo = [sp.Symbol("r_inner", nonnegative=True), sp.Symbol("z_lo", real=True)]
+                ext = [sp.Symbol("r_width", positive=True), sp.Symbol("z_width", positive=True)]
+                hi = [a + b for a, b in zip(lo, ext)]
+                env = {"boundary_distance": bd, "avoid_center": avoid}
+
+                def ev(e):
+                    if isinstance(e, ast.Constant) and isinstance(e.value, (int, float)):
+                        return sp.nsimplify(e.value, rational=True)
+                    if isinstance(e, ast.Name):
+                        if e.id in env:
+                            return env[e.id]
+                        raise Unsupported(f"name {e.id}")
+                    if isinstance(e, ast.Attribute):
+                        if ast.unparse(e) == "self.dim":
+                            return sp.Integer(dim)
+                        if ast.unparse(e) == "np.pi":
+                            return sp.pi
+                        raise Unsupported(ast.unparse(e))
+                    if isinstance(e, ast.Subscript):
+                        txt = ast.unparse(e)
+                        for k in (0, 1):
+                            if txt == f"self.axes_bounds[{k}]":
+                                return (lo[k], hi[k])
+                            for end in (0, 1):
+                                if txt == f"self.axes_bounds[{k}][{end}]":
+                                    return (lo[k], hi[k])[end]
+                        raise Unsupported(txt)
+                    if isinstance(e, ast.IfExp):
+                        t = ev(e.test)
+                        if not isinstance(t, bool):
+                            raise Unsupported("undecided conditional")
+                        return ev(e.body if t else e.orelse)
+                    if isinstance(e, ast.BinOp):
+                        l, r = ev(e.left), ev(e.right)
+                        return {ast.Add: lambda: l + r, ast.Sub: lambda: l - r, ast.Mult: lambda: l * r, ast.Div: lambda: l / r, ast.Pow: lambda: l**r}[type(e.op)]()
+                    if isinstance(e, ast.UnaryOp) and isinstance(e.op, ast.USub):
+                        return -ev(e.operand)
+                    if isinstance(e, ast.Call):
+                        fn = dotted(e.func).split(".")[-1]
+                        if fn == "uniform" and len(e.args) == 2:
+                            a, b = ev(e.args[0]), ev(e.args[1])
+                            return a + U * (b - a)
+                        if fn == "sqrt":
+                            return sp.sqrt(ev(e.args[0]))
+                        if fn == "array" and isinstance(e.args[0], (ast.List, ast.Tuple)) and len(e.args[0].elts) == 1:
+                            return ev(e.args[0].elts[0])
+                        raise Unsupported(ast.unparse(e)[:50])
+                    raise Unsupported(ast.unparse(e)[:50])
+
+                coord_nodes: dict = {}
+                try:
+                    for st in f.node.body:
+                        if isinstance(st, ast.Assign) and len(st.targets) == 1:
+                            t = st.targets[0]
+                            if isinstance(t, ast.Name) and t.id != "rng":
+                                if t.id in coords:
+                                    coord_nodes[t.id] = st.value
+                                try:
+                                    env[t.id] = ev(st.value)
+                                except Unsupported:
+                                    if t.id in coords or t.id.endswith(("_min", "_max")):
+                                        raise
+                            elif isinstance(t, ast.Tuple) and all(isinstance(x, ast.Name) for x in t.elts):
+                                v = ev(st.value)
+                                for x, vv in zip(t.elts, v):
+                                    env[x.id] = vv
+                        if all(c in env for c in coords):
+                            break
+                except Unsupported as e:
+                    raise AnalysisError(f"{f.ref}: {e}") from e
+                for k, c in enumerate(coords):
+                    if c not in env:
+                        raise AnalysisError(f"{f.ref}: the sampled coordinate `{c}` was not found")
+                    n += 1
+                    r = env[c]
+                    at0, at1 = sp.simplify(r.subs(U, 0)), sp.simplify(r.subs(U, 1))
+                    # the function raises unless <c>_max > <c>_min (guard extracted below) and <c>_min >= 0 for radii:
+                    # |<c>_max| = <c>_max
+                    mx, mn = env.get(f"{c}_max"), env.get(f"{c}_min")
+                    guarded = any(
+                        isinstance(st, ast.If) and any(isinstance(b, ast.Raise) for b in st.body) and f"{c}_max <= {c}_min" in ast.unparse(st.test)
+                        for st in f.node.body
+                    )
+                    if not guarded:
+                        raise AnalysisError(f"{f.ref}: guard `{c}_max <= {c}_min -> raise` not found")
+                    if mx is not None and mn is not None and (sp.simplify(mn).is_nonnegative or c != "r") and c in coord_nodes:
+                        # re-evaluate the draw with <c>_max as a positive symbol (justified by the guard), then substitute back
+                        P = sp.Symbol(f"{c}_max_pos", positive=True)
+                        saved = env[f"{c}_max"]
+                        env[f"{c}_max"] = P
+                        try:
+                            r_pos = ev(coord_nodes[c])
+                        finally:
+                            env[f"{c}_max"] = saved
+                        at1 = sp.simplify(sp.simplify(r_pos.subs(U, 1)).subs(P, mx))
+                    tag = f"{qn}:avoid_center={avoid}:dim={dim}:{c}"
+                    lo_ok = sp.simplify(at0 - lo[k]).is_nonnegative
+                    hi_ok = sp.simplify(hi[k] - at1).is_nonnegative
+                    rep.oblige(f"{tag}: draws lie between the bounds of the axis", bool(lo_ok) and bool(hi_ok), {"u=0": str(at0), "u=1": str(at1)})
+                    if not (lo_ok and hi_ok):
+                        which = f"smallest draw `{at0}` is not >= the lower bound `{lo[k]}`" if not lo_ok else f"largest draw `{at1}` is not <= the upper bound `{hi[k]}`"
+                        rep.violation(
+                            "C12.random-point-range",
+                            f"{f.ref}::{c}::avoid_center={avoid}",
+                            f"{tag}: the {which} for all admissible boundary_distance >= 0: generated points can lie outside the grid (inside the hole of an annulus / shell), where contains_point is False",
+                            line=f.node.lineno,
+                        )
+    rep.floor("sampled coordinates of get_random_point judged", n, 6)
+
+
 def check(tier: str) -> Report:
     rep = Report("C12", tier, "proof", "abstract interpretation of geometry helpers into sympy; exact integrals / sums; template matching for point normalisation; index-space typing of periodicity flags")
     rep.explanation = (
@@ -860,7 +1029,7 @@ def check(tier: str) -> Report:
     ix = get_index()
     run_sections(
         rep,
-        [*coordinate_class_sections(), check_cell_volumes, check_transform, check_normalize, check_integrate, check_difference_vector, check_wrap_formula, check_discretize, check_ball_volumes, check_slice_project],
+        [*coordinate_class_sections(), check_cell_volumes, check_transform, check_normalize, check_integrate, check_difference_vector, check_wrap_formula, check_discretize, check_ball_volumes, check_slice_project, check_random_point_range],
         ix,
     )
     rep.assumptions += [
